@@ -8,7 +8,7 @@ from checks import gcm_common as G
 PID = "C01"
 RULE = ("Hypothesis-constructed handshake-consistent joint degree sequences x motif configurations (cliques, cycles, "
         "diamonds, template callbacks, multi-orbit custom motifs) x algorithm {fast, network, motifs} x construction "
-        "path {class, factory, main(enum), main(str)} x RNG {seeded, scripted}; non-trivial = at least 2 motif "
+        "path {class, factory, main(enum), main(str)} x RNG {seeded, scripted}; also: generator reused for a second graph, caller's parameter dictionary re-assigned after construction; edge-list results must carry one motif id per callback return with edges; non-trivial = at least 2 motif "
         "instances in total and some motif with >= 2 instances; distinct = distinct canonical JSON of the case")
 ASSUMPTIONS = ["every column of the joint degree sequence belongs to exactly one motif (as in the suite's fixtures)",
                "build callbacks are called synchronously once per motif instance (journalled by wrapper callbacks)"]
